@@ -747,11 +747,14 @@ func (e *ConcatExpression) Evaluate(ctx *Context, input system.Collection) (syst
 	}
 
 	// Convert empty collection to empty string
+	// Use fresh collections: the operands may be (sub-slices of) collections
+	// owned by the caller, and appending to them would write into the caller's
+	// backing array.
 	if len(leftResult) == 0 {
-		leftResult = append(leftResult, system.String(""))
+		leftResult = system.Collection{system.String("")}
 	}
 	if len(rightResult) == 0 {
-		rightResult = append(rightResult, system.String(""))
+		rightResult = system.Collection{system.String("")}
 	}
 
 	if len(leftResult) > 1 || len(rightResult) > 1 {
